@@ -172,7 +172,14 @@ impl ValidationContext {
             )));
         }
 
-        Ok(())
+        // A list name (`list(3)`) or a variable that may hold a function
+        if self.callable_value_names.contains(name) {
+            return Ok(());
+        }
+
+        Err(CompilerError::invalid_source(format!(
+            "Function not found: '{name}'"
+        )))
     }
 
     fn validate_nodes_variable_divert_targets(
